@@ -114,6 +114,8 @@ class Interp:
         if isinstance(n, ast.Attribute):
             if n.attr == 'T':
                 v = self.ev(n.value)
+                if v is not None and v[0] == 'obj':
+                    return ('obj', tuple(v[1][:2]) + tuple(reversed(v[1][2:])))
                 return arr(tuple(reversed(v[1]))) if v is not None and v[0] == 'arr' else None
             if n.attr == 'shape':
                 v = self.ev(n.value)
@@ -156,8 +158,26 @@ class Interp:
                 return ('int', U())
             if isinstance(n.op, ast.MatMult):
                 return self.dot(n, a, b)
-            sa = a[1] if a is not None and a[0] == 'arr' else (() if a is not None and a[0] == 'int' else None)
-            sb = b[1] if b is not None and b[0] == 'arr' else (() if b is not None and b[0] == 'int' else None)
+            if (a is not None and a[0] == 'obj') or (b is not None and b[0] == 'obj'):
+                # arithmetic of Taylor-polynomial objects broadcasts their element axes
+                def el(v):
+                    if v is None:
+                        return None
+                    if v[0] == 'obj':
+                        return tuple(v[1][2:])
+                    if v[0] == 'arr':
+                        return tuple(v[1])
+                    if v[0] in ('int', 'idx'):
+                        return ()
+                    return None
+                ea, eb = el(a), el(b)
+                if ea is None or eb is None:
+                    return None
+                r = self.broadcast(n, ea, eb)
+                dp = (a if a[0] == 'obj' else b)[1][:2]
+                return ('obj', tuple(dp) + tuple(r)) if r is not None else None
+            sa = a[1] if a is not None and a[0] == 'arr' else (() if a is not None and a[0] in ('int', 'idx') else None)
+            sb = b[1] if b is not None and b[0] == 'arr' else (() if b is not None and b[0] in ('int', 'idx') else None)
             if sa is None or sb is None:
                 return None
             r = self.broadcast(n, sa, sb)
@@ -352,6 +372,19 @@ class Interp:
         if last == '_shape' and args:
             v = self.ev(args[0])
             return ('shp', v[1]) if v is not None and v[0] == 'arr' else None
+        if d in ('UTPM.dot', 'cls.dot') and len(args) >= 2:
+            a, b = self.ev(args[0]), self.ev(args[1])
+            if a is not None and b is not None and a[0] == 'obj' and b[0] == 'obj':
+                r_ = self.dot(n, arr(a[1][2:]), arr(b[1][2:]))
+                return ('obj', tuple(a[1][:2]) + tuple(r_[1])) if r_ is not None else None
+            return None
+        if isinstance(n.func, ast.Attribute) and last == 'reshape' and args:
+            recv = self.ev(n.func.value)
+            shp = self.ev(args[0]) if len(args) == 1 else ('shp', tuple((self.ev(a_) or ('int', U()))[1] if (self.ev(a_) or ('x',))[0] == 'int' else U() for a_ in args))
+            if recv is not None and recv[0] == 'obj' and shp is not None and shp[0] == 'shp':
+                return ('obj', tuple(recv[1][:2]) + tuple(shp[1]))
+            if recv is not None and recv[0] == 'arr' and shp is not None and shp[0] == 'shp':
+                return arr(shp[1])
         if isinstance(n.func, ast.Name) and n.func.id in ('cls', 'UTPM') and len(args) == 1:
             v = self.ev(args[0])
             return ('obj', v[1]) if v is not None and v[0] == 'arr' else None
@@ -643,6 +676,10 @@ class Interp:
                 for e in t.elts:
                     self.bind_target(e, None, st)
         elif isinstance(t, ast.Subscript):
+            tv = self.ev(t)
+            if tv is not None and tv[0] == 'obj' and v is not None and v[0] == 'obj':
+                self.fits(st, tuple(tv[1][2:]), tuple(v[1][2:]))
+                return
             ts = self.shape_of(t)
             if v is not None and v[0] == 'arr':
                 self.fits(st, ts, v[1])
@@ -656,6 +693,10 @@ class Interp:
                 self.bind_target(t, v, st)
         elif isinstance(st, ast.AugAssign):
             v = self.ev(st.value)
+            tv = self.ev(st.target)
+            if tv is not None and tv[0] == 'obj' and v is not None and v[0] == 'obj':
+                self.fits(st, tuple(tv[1][2:]), tuple(v[1][2:]), what='in-place update')
+                return
             ts = self.shape_of(st.target)
             if v is not None and v[0] == 'arr' and ts is not None:
                 self.fits(st, ts, v[1], what='in-place update')
